@@ -27,6 +27,7 @@ CONSTANTS
   StopHooksMayFail = FALSE
   DrainOnClose = FALSE
   ReportBeforeRelease = FALSE
+  ReserveIgnoresStarting = FALSE
 SPECIFICATION FairSpec
 INVARIANTS TypeOK SerialFifo Conservation HandlingOnlyWhileRunning HookOrder CallSound RegistrySound FailedStartFreesName SupervisionSound GroupExactlyOne GroupLockSound GroupTriesEachOnce
 PROPERTIES CallReturnsOrStuck AllHandledUnlessStopped StopCompletes
